@@ -21,7 +21,7 @@ class Abort(BaseException):  # like KeyboardInterrupt: not an Exception subclass
     pass
 
 
-def mksys(variant, V, R, phases):
+def mksys(variant, V, R, phases, bpc=None):
     """variant A: battery B is the only source; variant B: two sources, the battery is the second one."""
     if variant == "A":
         s = System("t", Source("B", vo=V, rs=R))
@@ -39,18 +39,20 @@ def mksys(variant, V, R, phases):
         s.set_comp_phases("L", {names[0]: 0.2, names[-1]: 0.05})
         if len(names) > 2:
             s.set_comp_phases("C", [names[0], names[2]])
+        if bpc:  # the battery itself is switched off in some phases: those phases still elapse, with zero current
+            s.set_comp_phases("B", [names[j] for j in bpc])
     return s
 
 
-def ibatt(variant, V, R, phases, ph):
-    s = mksys(variant, V, R, phases)
+def ibatt(variant, V, R, phases, ph, bpc=None):
+    s = mksys(variant, V, R, phases, bpc)
     df, _ = quiet_call(s.solve, phase=ph) if ph else quiet_call(s.solve)
     return float(df[df.Component == "B"]["Iout (A)"].iloc[0])
 
 
-def run_seq(variant, phname, seq, cutoff=3.0, cap0=0.01, V0=3.7, R0=0.1, fault=None):
+def run_seq(variant, phname, seq, cutoff=3.0, cap0=0.01, V0=3.7, R0=0.1, fault=None, bpc=None):
     phases = PHASES[phname]
-    s = mksys(variant, 5.0, 0.3, phases)
+    s = mksys(variant, 5.0, 0.3, phases, bpc)
     calls = []
     st = [cap0, V0, R0]
     idx = [0]
@@ -126,7 +128,8 @@ def check_case(case):
             res.v(("C18.callback-before-validation",), "%d callback calls for battery %r" % (n[0], case["bad_name"]))
         res.nontrivial = 1
         return res
-    s, calls, log, exc, npf = run_seq(variant, phname, seq)
+    bpc = case.get("bpc")
+    s, calls, log, exc, npf = run_seq(variant, phname, seq, bpc=bpc)
     res.stats["evaluations"] += 1
     res.stats["transitions"] += len(calls) + 1
     if exc is not None:
@@ -136,7 +139,7 @@ def check_case(case):
     pl = list(phases) if phases else [None]
     for j, (t, i, V, R) in enumerate(calls):
         ph = pl[j % len(pl)]
-        ei = ibatt(variant, V, R, phases, ph)
+        ei = ibatt(variant, V, R, phases, ph, bpc)
         if not close(i, ei, 1e-6, 1e-9):
             res.v(("C18.current", phname), "call %d (phase %s): got %r, fresh system with V=%r R=%r draws %r" % (j, ph, i, V, R, ei))
         et = phases[ph] if phases else 3.6 * cap0 / ei
@@ -180,6 +183,11 @@ def gen_cases(tier):
                 for body in itertools.product("cvr", repeat=k):
                     for end in "ZKU":
                         yield dict(variant=variant, phases=phname, seq="".join(body) + end)
+            if phname != "none":  # battery with its own phase list (a proper subset of the phases)
+                for bpc in ([0], [1]) if phname == "two" else ([0, 2], [1]):
+                    for k in range(0, min(K, 4) + 1):
+                        for body in itertools.product("cvr", repeat=k):
+                            yield dict(variant=variant, phases=phname, seq="".join(body) + "Z", bpc=bpc)
             for bad in ("C", "L", "nope", "R"):
                 yield dict(variant=variant, phases=phname, seq="", bad_name=bad)
 
@@ -199,7 +207,7 @@ def main(tier):
     return run.finish(
         level="model_checking",
         rule="E3: all answer sequences over {capacity step, voltage step, impedance step} of length 0..%d, each followed by every terminator {capacity->0, voltage==cutoff, voltage<cutoff}, "
-             "x {no phases, 2 phases, 3 phases with per-phase loads and a converter active in 2 of 3} x {battery is the only source, battery is the second of two sources}; plus non-source / "
+             "x {no phases, 2 phases, 3 phases with per-phase loads and a converter active in 2 of 3} x {battery is the only source, battery is the second of two sources} x {battery always on, battery switched off in a subset of the phases}; plus non-source / "
              "unknown battery names. Oracle: every dfunc call receives the phase duration (3.6*cap0/I without phases) and the battery Iout of a FRESH system holding the battery's present (V,R) "
              "in that phase; pfunc called once; log = initial state + every live state, strictly increasing accumulated time, no dead state. states = executions, transitions = callback invocations. "
              "non-trivial = run that cycled through every phase (or made >=2 steps without phases)." % (5 if tier == "quick" else 7),
